@@ -168,6 +168,39 @@ example :
     s1.map (·.vdses) = some [(1, ⟨[9], 1⟩), (2, ⟨[7, 8], 2⟩)] ∧
     s1.map (fun s => (reload fl s).vdses) = some [(1, ⟨[7, 8], 2⟩), (1, ⟨[9], 1⟩)] := by decide
 
+/-- **Progress of a GVCF step** under the guard the constructor enforces (`branch_factor ≥ 2`, `gvcf_batch_size ≥ 1`):
+every `_step_gvcfs` consumes at least one pending GVCF. -/
+theorem gvcf_step_consumes (s : Plan) (h : WF s) (hg : s.gvcfs ≠ []) :
+    (stepGvcfs flog s).gvcfs.length < s.gvcfs.length :=
+  stepGvcfs_consumes flog s (by have := h.1; omega) h.2 hg
+
+/-- Without the guard there is no progress: with batch size 0 (and an external header, so that `files_to_merge[0]`
+is not evaluated) a step with GVCFs pending changes nothing, `run()` loops forever. -/
+theorem zero_batch_stuck (s : Plan) (hb : s.batch = 0) (hg : s.gvcfs ≠ []) : step flog s = s := by
+  unfold step
+  have hf : finished s = false := by
+    unfold finished; cases h : s.gvcfs <;> simp_all
+  have hne : (!s.gvcfs.isEmpty) = true := by cases h : s.gvcfs <;> simp_all
+  simp only [hf, Bool.false_eq_true, if_false, hne, if_true]
+  exact stepGvcfs_zero_batch flog s hb hg
+
+/-! #### the public `gvcf_batch_size` setter (OPEN FINDING on the unchanged tree)
+
+Wanted: `setter_keeps_guard : 1 ≤ v → 1 ≤ clampBatch nIv v` for every number of import intervals — the setter must
+not break the guard `gvcf_batch_size ≥ 1` the constructor enforces. It is **false**: above 150 000 import intervals
+(`import_interval_size` below ≈ 20 kb on a human genome) `150000 // len(intervals)` is 0; a combiner whose batch size
+is then set through the property makes no progress (`zero_batch_stuck`). Witness and the part that holds: -/
+example : clampBatch 150001 1 = 0 := by decide
+example : ¬ (∀ nIv v, 1 ≤ v → 1 ≤ clampBatch nIv v) := fun h => absurd (h 150001 1 (Nat.le_refl 1)) (by decide)
+
+/-- `setter_keeps_guard`, the part that holds: up to 150 000 import intervals the setter keeps the batch size ≥ 1, so
+`WF` — and with it every theorem of this file — survives a `combiner.gvcf_batch_size = v` between steps (the setter
+touches nothing else: inputs, datasets and measure are unchanged). -/
+theorem setter_keeps_guard_partial (nIv v : Nat) (s : Plan) (h : WF s) (hn : nIv ≤ 150000) (hv : 1 ≤ v) :
+    WF (setBatch nIv v s) ∧ allLeaves (setBatch nIv v s) = allLeaves s ∧
+      planMeasure (setBatch nIv v s) = planMeasure s ∧ (setBatch nIv v s).finals = s.finals :=
+  ⟨⟨h.1, clampBatch_pos hn hv⟩, rfl, rfl, rfl⟩
+
 /-- **Termination with arbitrary stop/resume points.** From any plan the constructor can produce (or any state
 reached later), running `n ≥ 2·#gvcfs + #datasets` steps — saving and reloading before any subset of them — reaches a
 finished plan. -/
